@@ -33,8 +33,11 @@ def main():
     ap.add_argument('--tier', default='quick')
     ap.add_argument('--in-repo', action='store_true')
     ap.add_argument('--seed', type=int, default=0)
+    ap.add_argument('--dir', default='seeded', help="'seeded' (breaking changes, expect exit 1) or 'harmless' (expect exit 0)")
     ap.add_argument('ids', nargs='*')
     a = ap.parse_args()
+    global SEEDED
+    SEEDED = os.path.join(HERE, a.dir)
     ids = a.ids or sorted(d for d in os.listdir(SEEDED) if os.path.isdir(os.path.join(SEEDED, d)))
     results = {}
     for sid in ids:
@@ -76,8 +79,9 @@ def main():
             shutil.rmtree(scratch, ignore_errors=True)
         print(sid, json.dumps(results[sid]), flush=True)
     caught = sum(1 for r in results.values() if r.get('caught'))
-    print(f'caught {caught} of {len(results)}')
-    with open(os.path.join(HERE, 'seeded', 'RESULTS.json'), 'w') as fh:
+    quiet = sum(1 for r in results.values() if r.get('exit') == 0)
+    print(f'{a.dir}: exit 1 with VIOLATION on {caught}, exit 0 on {quiet}, of {len(results)}')
+    with open(os.path.join(SEEDED, 'RESULTS.json'), 'w') as fh:
         json.dump(results, fh, indent=1)
 
 
